@@ -767,7 +767,8 @@ func (c *checker) selectDocs() {
 	c.sel = map[string][]int{}
 	for _, fam := range []string{"field", "document", "index", "analysis"} {
 		for i, d := range c.docs {
-			if !c.r.Quick() || d.quickFams == "" || strings.Contains(","+d.quickFams+",", ","+fam+",") {
+			// custom analysis only shows on text and date values: that family keeps its selection in both tiers
+			if (!c.r.Quick() && fam != "analysis") || d.quickFams == "" || strings.Contains(","+d.quickFams+",", ","+fam+",") {
 				c.sel[fam] = append(c.sel[fam], i)
 			}
 		}
@@ -1310,7 +1311,7 @@ func Run(r *mc.Run) {
 	// phase 2: strict JSON mode: every key Marshal writes must be accepted by the strict decoders
 	if !r.Expired() {
 		mapping.MappingJSONStrict = true
-		sstride := mc.Pick(r, 5, 1)
+		sstride := mc.Pick(r, 5, 3)
 		n := (len(specs) + sstride - 1) / sstride
 		r.ParFor(n, 0, func(k int) {
 			c.checkOne(specs[k*sstride])
